@@ -455,6 +455,13 @@ func objOf(w *c15World, name string, r *vk.Rand) interface{} {
 	return nil
 }
 
+func prevIdx(k int) int {
+	if k > 0 {
+		return k - 1
+	}
+	return 0
+}
+
 func c15RoundTrip(t *vk.T, i int, withCMP bool) {
 	r := t.Rng
 	w := c15Build(t, withCMP)
@@ -512,6 +519,43 @@ func c15RoundTrip(t *vk.T, i int, withCMP bool) {
 		if i == 0 {
 			t.Sample(map[string]any{"type": nm, "encoded_bytes": len(data)})
 		}
+	}
+	// a receive variable reused for one wire message after the other must hold exactly the last message
+	if !withCMP && len(w.msgs) >= 2 {
+		var reused protocol.Message
+		// a mixed traffic sample: broadcasts, point-to-point messages, with and without echo hashes
+		msgs := append([]*protocol.Message{}, w.msgs...)
+		_, _, _ = fx.RunMulti(r, w.frost.Ids, func(id party.ID) protocol.StartFunc { return frost.Keygen(group, id, w.frost.Ids, 1) }, fx.Opt{Prepare: func(n *sim.Net) {
+			n.OnDeliver = func(_ *sim.Net, d *sim.Delivery) []*sim.Delivery {
+				if len(msgs) < 40 {
+					msgs = append(msgs, sim.Decode(d.Bytes))
+				}
+				return []*sim.Delivery{d}
+			}
+		}})
+		order := r.Perm(len(msgs))
+		for k, mi := range order {
+			m := msgs[mi]
+			data, err := m.MarshalBinary()
+			if err != nil {
+				continue
+			}
+			if p, fr, txt := vk.Guard(func() { err = reused.UnmarshalBinary(data) }); p {
+				t.Violation("protocol.Message|restore-panic|"+fr, "restoring into a reused value panicked: %s", txt)
+				break
+			}
+			t.Obs("evaluations", 1)
+			t.Obs("messages_restored_into_a_reused_value", 1)
+			if err != nil {
+				t.Violation("protocol.Message|restore-failed", "restoring an honest encoding into a reused value failed: %v", err)
+				break
+			}
+			if d := deepDiff(reflect.ValueOf(m), reflect.ValueOf(&reused), "", 0); d != "" {
+				t.Violation("protocol.Message|reused-value-keeps-stale-fields|"+stripIdx(d), "after restoring message %d of %d into the same variable it differs from what was sent at %s (previous message: broadcast=%v to=%q)", k+1, len(order), d, msgs[order[prevIdx(k)]].Broadcast, msgs[order[prevIdx(k)]].To)
+				break
+			}
+		}
+		t.Distinct("roundtrip|protocol.Message|reused-receive-variable")
 	}
 	// behavioural use of restored objects together with originals
 	if !withCMP {
